@@ -62,6 +62,41 @@ func (c12) RunBatch(ctx *core.Ctx, batch int) {
 			in := in
 			ctx.Case(in, func() { c12Check(ctx, "numbers", in) })
 		}
+		// amounts and numbers with many significant digits, tiny and huge magnitudes: an encoder
+		// that rounds, clips or reformats a power, a distance or a value shows here
+		amounts := []string{"0.1234567", "0.12345678", "1.00000001", "0.30000000000000004", "123456.7890123", "0.0000001", "0.00000012345", "1e-7", "2.5e-7", "1e21", "1e22", "3.4028235e38", "1.7976931348623157e308", "5e-324", "4.9e-324", "0.1", "0.7", "1.1", "2.675", "1e6", "1000000", "1000001", "16777217", "9007199254740993", "0.999999", "0.9999999", "0.99999999", "1.0000001", "1.0000005", "33.333333333333336"}
+		rr := ctx.Rand("amounts")
+		for i := 0; i < 120; i++ {
+			digits := 1 + rr.Intn(17)
+			m := ""
+			for d := 0; d < digits; d++ {
+				m += string(rune('0' + rr.Intn(10)))
+			}
+			if len(m) > 1 {
+				k := 1 + rr.Intn(len(m)-1)
+				m = m[:k] + "." + m[k:]
+			}
+			switch rr.Intn(4) {
+			case 0:
+				m += fmt.Sprintf("e%d", rr.Intn(31)-10)
+			case 1:
+				m = "0." + strings.Repeat("0", rr.Intn(9)) + strings.ReplaceAll(m, ".", "")
+			}
+			amounts = append(amounts, m)
+		}
+		for _, a := range amounts {
+			for _, in := range []string{"a^" + a, "a:b^" + a, "(a OR b:c)^" + a, "a:" + a, "a:[" + a + " TO *]", "a:(" + a + " OR 1)", `"p q"^` + a + " AND x"} {
+				in := in
+				ctx.Case(in, func() { c12Check(ctx, "numbers", in) })
+			}
+			ctx.Count("amount_spellings", 1)
+		}
+		for _, dist := range []string{"2", "100", "255", "256", "65536", "1000000", "2147483647", "2147483648", "4294967296", "9223372036854775807"} {
+			for _, in := range []string{"a~" + dist, "a:b~" + dist + " OR c", `"p q"~` + dist} {
+				in := in
+				ctx.Case(in, func() { c12Check(ctx, "numbers", in) })
+			}
+		}
 		return
 	}
 	plan.each(ctx, batch, func(kind, in string) {
